@@ -56,15 +56,45 @@ def run(ctx):
     impl, model = cl.run_both(ctx, cases)
     n_mis, n_spec = cl.judge(ctx, 'C11', cases, impl, model)
     ctx.oblige('correspondence:client-task-scripts', n_mis == 0 and n_spec == 0, f'{n_mis} model / {n_spec} spec mismatches in {len(cases)} scripts')
+    extra = 0
+    if ctx.tier == 'thorough' and not ctx.replay:
+        extra = wrap_run(ctx)
     classes = {}
     for c, i in zip(cases, impl):
         for k in cl.classify(c, i):
             classes[k] = classes.get(k, 0) + 1
     ctx.coverage.update({
-        'evaluations': len(cases),
+        'evaluations': len(cases) + extra,
         'distinct_nontrivial': len(set(cl.to_line(c) for c, i in zip(cases, impl) if ' w' in i)),
         'rule': 'event scripts (directed stale/future/duplicate/idle-frame patterns, then random scripts steered towards the outstanding tx id); non-trivial = at least one request reached the wire; distinct by script text',
         'samples': [[cl.to_line(c), i] for c, i in list(zip(cases, impl))[:4]],
         'input_classes': dict(sorted(classes.items())),
         'exhaustive': False,
     })
+
+
+def wrap_run(ctx, n=70000):
+    """thorough tier: n real requests over one connection, every one answered with its own tx id"""
+    cfg = {'cap': 4, 'handles': 1, 'mt': 0, 'rmin': 20 * MS, 'rmax': 40 * MS}
+    script = cl.connected_prefix()
+    for k in range(n):
+        script.append(('S', k % 65536, 'r', 10 * MS, 'fcx'[k % 3]))
+        if k % 1000 == 999:
+            script.append(('F', (k - 1) % 65536, 'g'))       # a stale duplicate now and then
+        script.append(('F', k % 65536, 'g'))
+    out = ctx.harness('client', [cl.to_line((cfg, script))], timeout=1500)[0]
+    p = cl.parse(out)
+    wires = [t for t in p['task'] if t[0] == 'w']
+    ok = len(wires) == n and len(p['comp']) == n
+    for k, t in enumerate(wires):
+        tx = int(t[1:t.index(':')])
+        i = int(t[t.index(':') + 1:].split('@')[0])
+        if tx != k % 65536 or i != k % 65536:
+            ok = False
+            ctx.violation('C11.tx-id-is-not-the-count-of-requests-taken', f'request number {k} was stamped {tx}',
+                          {'cases': [], 'wrap_run': n, 'index': k, 'tx': tx})
+            break
+    if any(c[1] != 'Ok' for c in p['comp']):
+        ok = False
+    ctx.oblige(f'wrap-run:{n}-requests-stamped-k-mod-65536-and-answered', ok, f'{len(wires)} written, {len(p["comp"])} completed')
+    return n
